@@ -220,7 +220,7 @@ def main():
     res = ck.step_generate('Gen_C09', TARGETS)
     if res is not None:
         ck.step_prove('P_C09')
-    n = 400 if ck.thorough() else 80
+    n = 1600 if ck.thorough() else 80
     goals = run_cases(ck, res, n, 24 if ck.thorough() else 6)
     if res is not None:
         ck.step_interval_goals('corr', goals)
